@@ -4,6 +4,22 @@ are probability rows, the re-indexed rows are non-negative.
 -/
 import SkNet.Lemmas.ClassifyDiffusionFit
 
+namespace SkNet.Classify.Knn
+
+theorem foldl_max_ge' (l : List Int) (m : Int) : m ≤ l.foldl max m ∧ ∀ x ∈ l, x ≤ l.foldl max m := by
+  induction l generalizing m with
+  | nil => simp
+  | cons y ys ih =>
+    simp only [List.foldl_cons]
+    obtain ⟨h1, h2⟩ := ih (max m y)
+    refine ⟨by omega, ?_⟩
+    intro x hx
+    rcases List.mem_cons.mp hx with rfl | hx
+    · omega
+    · exact h2 x hx
+
+end SkNet.Classify.Knn
+
 namespace SkNet.Classify.Rank
 open SkNet.Classify
 
@@ -78,5 +94,132 @@ theorem probs_nonneg (values : List Int) (scores : List (List Rat)) (o : Out)
     · rw [List.getD_eq_getElem?_getD, List.getElem?_eq_none (by omega)]
       exact le_refl 0
   · exact le_refl 0
+
+/-! ### moving the columns to the label values keeps the row sum -/
+
+theorem rsum_append' (a b : List Rat) : rsum (a ++ b) = rsum a + rsum b := by
+  induction a with
+  | nil => simp
+  | cons x xs ih => simp only [List.cons_append, rsum_cons, ih]; ring
+
+theorem rsum_tab_succ (n : Nat) (f : Nat → Rat) : rsum (tab (n+1) f) = rsum (tab n f) + f n := by
+  unfold tab
+  rw [List.range_succ, List.map_append, rsum_append']
+  simp
+
+theorem rsum_tab_congr (n : Nat) (f g : Nat → Rat) (h : ∀ q, q < n → f q = g q) : rsum (tab n f) = rsum (tab n g) := by
+  unfold tab
+  rw [List.map_congr_left (fun q hq => h q (List.mem_range.mp hq))]
+
+/-- replacing the value at one position `a` (where `h` vanishes) adds it to the sum -/
+theorem rsum_tab_update (n a : Nat) (x : Rat) (h : Nat → Rat) (ha : a < n) (h0 : h a = 0) :
+    rsum (tab n fun q => if q = a then x else h q) = x + rsum (tab n h) := by
+  induction n with
+  | zero => omega
+  | succ m ih =>
+    rw [rsum_tab_succ, rsum_tab_succ]
+    by_cases hm : a = m
+    · subst hm
+      have : rsum (tab a fun q => if q = a then x else h q) = rsum (tab a h) := by
+        apply rsum_tab_congr
+        intro q hq
+        rw [if_neg (by omega)]
+      rw [this, if_pos rfl, h0]
+      ring
+    · rw [ih (by omega), if_neg (fun h' => hm h'.symm)]
+      ring
+
+theorem rsum_shift (m : Nat) (f : Nat → Rat) : rsum (tab (m+1) f) = f 0 + rsum (tab m fun k => f (k+1)) := by
+  induction m with
+  | zero => simp [tab]
+  | succ m ih =>
+    rw [rsum_tab_succ, ih, rsum_tab_succ]
+    ring
+
+/-- summing, over the columns `q < n`, the value attached to the position of `q` in a duplicate-free list of
+    column numbers gives the sum over the positions -/
+theorem rsum_reindex (us : List Int) (n : Nat) (f : Nat → Rat) (hnd : us.Nodup)
+    (hr : ∀ u ∈ us, 0 ≤ u ∧ u.toNat < n) :
+    rsum (tab n fun q => match us.findIdx? (· == (q : Int)) with | some k => f k | none => 0) =
+      rsum (tab us.length f) := by
+  induction us generalizing f with
+  | nil => 
+    simp only [List.findIdx?_nil, List.length_nil]
+    have : rsum (tab n fun _ => (0 : Rat)) = 0 := by
+      unfold tab
+      exact Diffusion.rsum_map_zero _
+    rw [this]
+    rfl
+  | cons u us ih =>
+    have hnd' := List.nodup_cons.mp hnd
+    obtain ⟨hu0, hun⟩ := hr u (List.mem_cons_self ..)
+    have hstep : ∀ q : Nat, (match (u :: us).findIdx? (· == (q : Int)) with | some k => f k | none => 0) =
+        (if q = u.toNat then f 0 else
+          (match us.findIdx? (· == (q : Int)) with | some k => f (k+1) | none => 0)) := by
+      intro q
+      rw [List.findIdx?_cons]
+      by_cases hq : u = (q : Int)
+      · subst hq
+        simp
+      · have hb : ¬ ((u == (q : Int)) = true) := by simpa using hq
+        have hne : ¬ q = u.toNat := by omega
+        rw [if_neg hb, if_neg hne]
+        cases us.findIdx? (· == (q : Int)) <;> rfl
+    rw [rsum_tab_congr n _ _ (fun q _ => hstep q)]
+    rw [rsum_tab_update n u.toNat (f 0) _ hun]
+    · rw [ih (fun k => f (k+1)) hnd'.2 (fun v hv => hr v (List.mem_cons_of_mem _ hv))]
+      simp only [List.length_cons]
+      rw [rsum_shift]
+    · -- u is not in us: no position
+      have : us.findIdx? (· == ((u.toNat : Nat) : Int)) = none := by
+        rw [List.findIdx?_eq_none_iff]
+        intro x hx
+        have hxu : x ≠ u := fun h => hnd'.1 (h ▸ hx)
+        have : x ≠ ((u.toNat : Nat) : Int) := by omega
+        simpa using this
+      rw [this]
+
+theorem rsum_eq_tab_getD (r : List Rat) : rsum (tab r.length fun k => r.getD k 0) = rsum r := by
+  congr 1
+  apply List.ext_getElem?
+  intro i
+  rw [tab_getElem?]
+  by_cases h : i < r.length
+  · rw [if_pos h, List.getD_eq_getElem?_getD, List.getElem?_eq_getElem h]
+    rfl
+  · rw [if_neg h, List.getElem?_eq_none (by omega)]
+
+/-- ★ the rows of `probs_` are probability rows -/
+theorem probs_rows_ok (values : List Int) (scores : List (List Rat)) (o : Out)
+    (h : fitCore values scores = .ok o) (hnn : ∀ r ∈ scores, ∀ x ∈ r, 0 ≤ x)
+    (hlen : ∀ r ∈ scores, r.length = (uniqueLabels values).length) :
+    ∀ row ∈ o.probs, Spec.rowOK 0 row = true := by
+  have hp := fit_parts values scores o h
+  intro row hrow
+  have hnonneg := probs_nonneg values scores o h hnn row hrow
+  rw [hp.probs_eq] at hrow
+  simp only [List.map_map, List.mem_map, Function.comp] at hrow
+  obtain ⟨r, hr, rfl⟩ := hrow
+  have hsum : rsum (tab ((values.foldl max 0) + 1).toNat fun q =>
+      match (uniqueLabels values).findIdx? (· == (q : Int)) with
+      | some k => (normalizeRow r).getD k 0
+      | none => 0) = rsum (normalizeRow r) := by
+    rw [rsum_reindex (uniqueLabels values) _ (fun k => (normalizeRow r).getD k 0) (uniqueLabels_nodup values)]
+    · rw [← hlen r hr, ← normalizeRow_length r]
+      exact rsum_eq_tab_getD _
+    · intro u hu
+      obtain ⟨hm, h0⟩ := mem_uniqueLabels.mp hu
+      have := (Knn.foldl_max_ge' values 0).2 u hm
+      exact ⟨h0, by omega⟩
+  unfold Spec.rowOK
+  simp only [Bool.and_eq_true, List.all_eq_true, decide_eq_true_eq, Bool.or_eq_true]
+  refine ⟨hnonneg, ?_⟩
+  rw [hsum]
+  rcases normalizeRow_sum (hnn r hr) with h1 | h1
+  · left
+    rw [h1]
+    simp [rabs_zero]
+  · right
+    rw [h1, rabs_zero]
 
 end SkNet.Classify.Rank
